@@ -1,10 +1,17 @@
-(* Property C01: lossless round trip.  Statements only; proofs in Proofs/Lossless.v.
-   PARTIAL with respect to the full property: these theorems are about the meaning of the emitted
-   components (what an RFC 9639 decoder reconstructs from the subframe fields); that the bytes
-   parse back to these fields is checked on every run by executing the extracted independent
-   decoder Flac.decode_stream on the implementation's bytes (see DESIGN.md, C01). *)
-From FV Require Import Model.Base Model.Codes Model.Rice Model.Predict Model.Component Model.Encoder
-  Model.Flac Proofs.Lossless.
+(* Property C01: lossless round trip.  Statements only; proofs in Proofs/Lossless.v (meaning of the
+   components) and Proofs/DecodeSubframe.v (the independent decoder on the written bits).
+
+   Proved: (a) the subframe / frame the encoder returns MEANS the block it was made from, for every
+   estimator; (b) the independent RFC 9639 decoder of Model/Flac.v, started at any bit position on
+   the bits a verified subframe serialises to, returns exactly that meaning and stops right after
+   them (C01_decoder_reads_subframe), and the byte sink's export of those operations carries those
+   bits (C01_bytes_carry_the_bits).
+   PARTIAL: frame framing (header fields, CRC-8/16, padding, channel count) and STREAMINFO around the
+   subframes, and the fact that the encoder's subframes pass verification, are checked on every run
+   by executing the extracted decoder on the implementation's bytes (DEC oracle), not proved. *)
+From FV Require Import Model.Base Model.Sink Model.Codes Model.Rice Model.Predict Model.Component Model.Encoder
+  Model.Flac Model.Ctor Proofs.Lossless Proofs.BitRead Proofs.BitWrite Proofs.CtorP Proofs.ParseResidual
+  Proofs.ParseSubframe Proofs.DecodeSubframe.
 Local Open Scope Z_scope.
 
 (* whatever the estimators answer, the subframe the encoder returns decodes to the block it was
@@ -51,3 +58,40 @@ Theorem C01_midside : forall l r : Z,
   Z.shiftr (m' + s) 1 = l /\ Z.shiftr (m' - s) 1 = r.
 Proof. exact midside_inverse. Qed.
 Print Assumptions C01_midside.
+
+(* ---- bit level: the independent decoder on what was written ---- *)
+Local Open Scope N_scope.
+
+(* `reads p bits x`: on any well-formed reader whose next bits are `bits`, p returns x and stops right
+   after them (any byte offset, any following data). *)
+Theorem C01_decoder_reads_subframe : forall s : subframe,
+  verify_subframe s = true -> sub_typed s -> sub_u_ok s ->
+  reads (read_subframe (sub_block s) (sub_bps s)) (subframe_bits s) (decode_sub s).
+Proof. exact flac_reads_subframe. Qed.
+Print Assumptions C01_decoder_reads_subframe.
+
+(* the operations of a verified subframe denote these bits at any position ... *)
+Theorem C01_subframe_ops_are_these_bits : forall (s : subframe) (cur : N),
+  verify_subframe s = true -> ops_bitlist cur (subframe_ops s) = subframe_bits s.
+Proof. exact subframe_ops_bits. Qed.
+Print Assumptions C01_subframe_ops_are_these_bits.
+
+(* ... and the byte sink exports exactly the bits of the operations, zero-padded to a byte *)
+Theorem C01_bytes_carry_the_bits : forall (ops : list op) (bytes : list N),
+  forallb wf_op ops = true -> pack KU8 ops = Ok bytes ->
+  Forall (fun x => x < 256) bytes /\ bytes_bits bytes = ops_bitlist 0 ops ++ repeat false (N.to_nat (Proofs.OpsLen.pad8 (Proofs.OpsLen.ops_len 0 ops))).
+Proof. exact pack_u8_bits. Qed.
+Print Assumptions C01_bytes_carry_the_bits.
+
+(* end to end for one subframe: encoder output (that verifies) -> bytes -> independent decoder -> the input block *)
+Theorem C01_subframe_bytes_decode_to_input :
+  forall (ent : N -> N -> N -> N) (qlpc : N -> N -> qparams) cfg fi var samples bps sf bytes,
+    encode_subframe ent qlpc cfg fi var samples bps = Ok sf ->
+    bounded (2 ^ 25) samples ->
+    (cfg_use_lpc cfg = true -> lpc_fits (qlpc fi var) samples = true
+                               /\ (length (q_coefs (qlpc fi var)) <= length samples)%nat) ->
+    verify_subframe sf = true -> sub_typed sf -> sub_u_ok sf ->
+    pack KU8 (subframe_ops sf) = Ok bytes ->
+    exists r', read_subframe (sub_block sf) (sub_bps sf) (rd_of bytes) = Some (samples, r').
+Proof. exact subframe_bytes_decode_to_input. Qed.
+Print Assumptions C01_subframe_bytes_decode_to_input.
